@@ -38,6 +38,7 @@ type c06Case struct {
 	Steps      []c06Step `json:"steps,omitempty"`
 	Pattern    string    `json:"pattern"`
 	NilHandler bool      `json:"nil_handler,omitempty"` // OnEstablished returns a nil UpdateMessageHandler
+	OCGapNs    int64     `json:"oc_gap_ns,omitempty"`   // time the remote lets pass in OpenConfirm before its first KEEPALIVE (< H)
 }
 
 func (c c06Case) H() time.Duration {
@@ -135,6 +136,13 @@ func c06Prop(t *testing.T, r *hx.Run, sub string) func(c c06Case) hx.Verdict {
 				received = append(received, now())
 				w.Settle()
 				if !c.OpenConf {
+					if c.OCGapNs > 0 {
+						w.Advance(time.Duration(c.OCGapNs))
+						if conn.Snapshot().LocalClosed {
+							fail("expired-early", "H=%v: the connection was closed %v after the remote's OPEN, while the remote was still within the hold time in OpenConfirm", H, time.Duration(c.OCGapNs))
+							return
+						}
+					}
 					conn.RemoteSend(wire.Keepalive(), nil)
 					received = append(received, now())
 					w.Settle()
@@ -356,7 +364,14 @@ func genC06(rt *rapid.T) c06Case {
 		}
 	}
 	H := c.H()
+	if H > 0 && rapid.IntRange(0, 2).Draw(rt, "ocgap") == 0 {
+		c.OCGapNs = int64(pick(rt, "ocgapv", H/3-time.Millisecond, H/3+time.Millisecond, H/2, H-time.Second, H-time.Millisecond))
+		if c.OCGapNs < 0 {
+			c.OCGapNs = 0
+		}
+	}
 	if H > 0 && rapid.IntRange(0, 6).Draw(rt, "oc") == 0 {
+		c.OCGapNs = 0
 		c.OpenConf = true
 		c.Pattern = "silent-openconfirm"
 		return c
